@@ -274,6 +274,10 @@ def real_check(case):
                 wn = w.copy()
                 wn[:, -2:] = np.nan                      # NaN-padded channels
                 wavs.append(wn)
+                wm = w.copy()
+                wm[:, 1] = np.nan                        # a padded channel that is not the last one (channels reordered / peak near the probe tip)
+                wavs.append(wm)
+                wavs.append(np.roll(wn, 1, axis=1))      # padding first, then the peak channel
     # extremum forced onto each of the last 8 samples (peak at T-1-j ... trough at the very end)
     for j in range(0, min(8, T - 2)):
         w = np.zeros((T, C))
